@@ -37,7 +37,7 @@ FInit(space) == GInit /\ fe \in space
 FInitQuick == FInit(ConstSpaceQuick(0))
 FInitAll == FInit(ConstSpaceAll(0))
 FNext == FALSE /\ UNCHANGED <<vars, hist, fe>>
-EmitFold == PrintT(ToJson([e |-> fe, v |-> EvalR(fe, <<>>), folded |-> Fold(fe)]))
+EmitFold == PrintT(ToJson([e |-> fe, v |-> EvalX(fe, <<>>), folded |-> Fold(fe)]))
 HInit == GInit /\ fe = 0
 HNext == GNext /\ UNCHANGED fe
 =============================================================================
